@@ -250,6 +250,33 @@ pub fn prove_uni(cfg: &Cfg, air: TinyAir, log_rows: usize, offset: u64) -> p3_un
 // ------------------------------------------------------------------ batch-STARK child
 
 /// `recursive_aggregation.rs::prove_dummy_circuit`: a constant connected to a public input.
+/// A base circuit with exactly ONE ALU op, proven with `alu_lanes = 4`: `BatchStarkProver::prove` then
+/// takes its lane-reduction branch (a one-row ALU table is reduced to one lane and the preparation data
+/// is recomputed), so the common data stored *in the proof* differs from the `CircuitProverData` the
+/// caller holds — the shape in which `RecursionOutput::into_recursion_input` must use the proof's copy.
+pub fn prove_one_alu(cfg: &Cfg, constant: u32) -> RecursionOutput<Cfg> {
+    let table_packing = TablePacking::new(1, 4).with_fri_params(LOG_FINAL_POLY_LEN, LOG_BLOWUP);
+    let mut builder = CircuitBuilder::new();
+    let c = builder.alloc_const(F::from_u32(constant), "c");
+    let x = builder.alloc_public_input("x");
+    let y = builder.add(x, c);
+    let expected = builder.alloc_public_input("expected");
+    builder.connect(y, expected);
+    let circuit = builder.build().unwrap();
+    let (airs_degrees, prim, nonprim) =
+        get_airs_and_degrees_with_prep::<Cfg, F, 1>(&circuit, &table_packing, &[], &[], ConstraintProfile::Standard).unwrap();
+    let (airs, degrees): (Vec<_>, Vec<usize>) = airs_degrees.into_iter().unzip();
+    let mut runner = circuit.runner();
+    runner.set_public_inputs(&[F::from_u32(5), F::from_u32(5) + F::from_u32(constant)]).unwrap();
+    let traces = runner.run().unwrap();
+    let pd = ProverData::from_airs_and_degrees(cfg, &airs, &degrees);
+    let cpd = CircuitProverData::new(pd, prim, nonprim);
+    let prover = BatchStarkProver::new(cfg.clone()).with_table_packing(table_packing);
+    let proof = prover.prove_all_tables(&traces, &cpd).expect("one-ALU-op circuit must prove");
+    prover.verify_all_tables::<F>(&proof).expect("one-ALU-op proof must verify");
+    RecursionOutput(proof, Rc::new(cpd))
+}
+
 pub fn prove_dummy(cfg: &Cfg, constant: u32) -> RecursionOutput<Cfg> {
     let table_packing = TablePacking::new(1, 1).with_fri_params(LOG_FINAL_POLY_LEN, LOG_BLOWUP);
     let mut builder = CircuitBuilder::new();
